@@ -321,8 +321,10 @@ def ac_ctor(case, kind):
 
 def h_reject_fallible(prop, case, facts, kind, api, n=1, timeout=900):
     name = "h_rejf_%s_%s_%s" % (case.name, kind, API_NAMES[api])
-    body = "    let ac = %s;\n    t::reject_fallible::<%s, %d, %d>(&ac);\n    core::mem::forget(ac);" % (ac_ctor(case, kind), case.mod, n, api)
-    schema = [("hay", ("bytes", n)), ("anchored", "bool")]
+    sp = kind == "dfa"
+    body = "    let ac = %s;\n    t::reject_fallible::<%s, %d, %d, %s>(&ac);\n    core::mem::forget(ac);" % (
+        ac_ctor(case, kind), case.mod, n, api, "true" if sp else "false")
+    schema = [("hay", ("bytes", n)), ("anchored", "bool")] + ([("s", "usize"), ("e", "usize")] if sp else [])
     meta = dict(template="reject_fallible", replay_template="reject", kind=kind, N=n, api="try_" + API_NAMES[api],
                 symbolic=["haystack bytes", "requested anchoring"], fixed_inputs={"api": API_NAMES[api]})
     return Harness(name, case, body, max(base_unwind(case, facts, n), 6), schema, meta, timeout=timeout, mem_gb=16,
@@ -369,9 +371,10 @@ def reject_possible(case, api, rej):
 
 def h_reject_infallible(prop, case, facts, kind, api, rej, n=1, timeout=900):
     name = "h_reji_%s_%s_%s_%s" % (case.name, kind, API_NAMES[api], "rej" if rej else "acc")
-    body = "    let ac = %s;\n    t::reject_infallible::<%s, %d, %d, %s>(&ac);\n    core::mem::forget(ac);" % (
-        ac_ctor(case, kind), case.mod, n, api, "true" if rej else "false")
-    schema = [("hay", ("bytes", n)), ("anchored", "bool")]
+    sp = kind == "dfa"
+    body = "    let ac = %s;\n    t::reject_infallible::<%s, %d, %d, %s, %s>(&ac);\n    core::mem::forget(ac);" % (
+        ac_ctor(case, kind), case.mod, n, api, "true" if rej else "false", "true" if sp else "false")
+    schema = [("hay", ("bytes", n)), ("anchored", "bool")] + ([("s", "usize"), ("e", "usize")] if sp else [])
     meta = dict(template="reject_infallible", replay_template="reject_inf", kind=kind, N=n, api=API_NAMES[api],
                 half="rejected configurations: must panic, never return" if rej else "accepted configurations: must not panic",
                 symbolic=["haystack bytes", "requested anchoring"], fixed_inputs={"api": API_NAMES[api], "expect_panic": int(rej)})
@@ -935,7 +938,9 @@ def schedule(prop, tier, seed):
         cases = []
         for mkk in ("std", "lf", "ll"):
             for sk in ("both", "un", "an"):
-                if quick and mkk == "ll" and sk != "un":
+                # quick: 6 of the 9 (match kind x start kind) cells + the two empty-pattern cases;
+                # the vp budget is 900 s per quick check and every cell costs ~12 harnesses
+                if quick and (mkk, sk) not in (("std", "both"), ("std", "un"), ("std", "an"), ("lf", "un"), ("lf", "an"), ("ll", "both")):
                     continue
                 cases.append(Case("c13%s_%s" % (mkk, sk), ["ab", "b"], mk=mkk, sk=sk))
         cases.append(Case("c13std_un_empty", ["ab", ""], mk="std", sk="un"))
@@ -950,13 +955,13 @@ def schedule(prop, tier, seed):
                 kinds = ["dfa", "cnfa", "nnfa"]
                 if quick and c.name not in ("c13std_un",):
                     kinds = ["dfa"]
-                if not quick or c.name in ("c13std_un", "c13lf_both", "c13lf_both_empty", "c13std_an"):
+                if not quick or c.name in ("c13std_un", "c13lf_both_empty", "c13lf_an"):
                     hs.append(h_iter_never_fails(prop, c, facts, "dfa", ov=False))
-                if c.mk == "std" and (not quick or c.name in ("c13std_un", "c13std_both")):
+                if c.mk == "std" and (not quick or c.name in ("c13std_un",)):
                     hs.append(h_iter_never_fails(prop, c, facts, "dfa", ov=True))
                 for kind in kinds:
                     full = kind == "dfa" or not quick
-                    for api in ([0, 1, 2, 3] if full else [0, 2]):
+                    for api in ([0, 1, 2, 3] if full else [2]):
                         hs.append(h_reject_fallible(prop, c, facts, kind, api))
                     if full:
                         hs.append(h_reject_sr(prop, c, facts, kind, "stream"))
@@ -965,7 +970,12 @@ def schedule(prop, tier, seed):
                             # dyn dispatch, which exhausts 16 GB (measured); the rejected cells
                             # return before it and are decided here
                             hs.append(h_reject_sr(prop, c, facts, kind, "replace"))
-                    for api in ([6, 0, 1, 2, 3] if full else [6]):
+                    infall = [6, 0, 1, 2, 3]
+                    if quick:
+                        # every infallible API is `try_x(..).expect(..)`; quick keeps the two that had defects
+                        # (is_match, find_overlapping) everywhere and the rest on one cell
+                        infall = [6, 0, 1, 2, 3] if c.name == "c13std_un" else [6, 2]
+                    for api in (infall if full else [6]):
                         for rej in (True, False):
                             if reject_possible(c, 0 if api == 6 else api, rej):
                                 hs.append(h_reject_infallible(prop, c, facts, kind, api, rej))
@@ -1064,9 +1074,11 @@ def schedule(prop, tier, seed):
         many = list(base)
         for d in ("abc", "ba", "dab", "cc", "bca", "ab", "cda", "abcd"):
             many.insert(rng.randint(0, len(many)), d)
-        while len(many) < 32:
+        while len(many) < 24:
             many.insert(rng.randint(0, len(many)), rng.choice(base))
-        if not quick or prop == "C06":
+        many = many[:24]
+        if not quick:
+            # measured: 32 patterns at N=5 did not finish in 40 min; thorough only, 24 patterns, N=4
             cases.append(PackedCase(prop.lower() + "ll_rk_many", many, mk="ll", force="rk"))
         # Teddy searchers: below their minimum length find_in falls back to Rabin-Karp
         cases.append(PackedCase(prop.lower() + "lf_t1_slow", ["a", "bc"], mk="lf", force="teddy128"))
@@ -1093,14 +1105,18 @@ def schedule(prop, tier, seed):
                         hs.append(h_pk_teddy(prop, c, facts, ln, off, w, 0x5a))
                     continue
                 n = 6 if quick else 8
+                if prop == "C15" and quick and not any(k in c.name for k in ("basic", "long", "hi", "slow")):
+                    continue
                 if "many" in c.name:
-                    hs.append(h_pk_find(prop, c, facts, n=5, timeout=2400))
+                    h = h_pk_find(prop, c, facts, n=4, timeout=5400)
+                    h.mem_gb = 28
+                    hs.append(h)
                     continue
                 hs.append(h_pk_find(prop, c, facts, n=n))
-                if not quick or "basic" in c.name or "long" in c.name:
-                    hs.append(h_pk_iter2(prop, c, facts, n=5 if quick else 6))
-                if prop == "C15" or not quick:
-                    hs.append(h_pk_span(prop, c, facts, n=5))
+                if not quick or (prop == "C06" and ("basic" in c.name or "long" in c.name)):
+                    hs.append(h_pk_iter2(prop, c, facts, n=(4 if "basic" in c.name else 5) if quick else 6))
+                if (prop == "C15" and any(k in c.name for k in ("basic", "long", "hi", "slow"))) or not quick:
+                    hs.append(h_pk_span(prop, c, facts, n=5 if not quick else 4))
             return hs
         return cases, mk
     if prop in ("C07", "C08", "C18"):
